@@ -76,7 +76,7 @@ theorem hookOk_mc (hR : Reg R E) {s s1 : St} {r : Nat} (hb : BInv R G U s) (hg :
     HookOk mcHook (objAt s1 r).asserted (HookP RE E U s1.fe) := by
   have hvars : s1.fe.variables = s.fe.variables := by rw [hg.fe]
   refine ⟨fun m s => ⟨_, mcHook_apply m s⟩, ?_⟩
-  intro m s2 ⟨hp1, hp2, hp3⟩ hpm
+  intro m s2 ⟨hp1, hp2, hp3⟩ hpm _
   rw [mcHook_apply]
   simp only
   have hv2 : s2.fe.variables = s.fe.variables := (congrArg Frontend.variables hp1).trans hvars
